@@ -114,6 +114,14 @@ CONTRACTS = {
                          '0 <= iu + du', 'iu + du <= size[0] - 1']),
             6: dict(inv=['len(temp) == dimension', 'temp[d0] <= c * sum(basis[2][k], 0, dw)',
                          '0 <= iv + dv', 'iv + dv <= size[1] - 1', '0 <= iu + du', 'iu + du <= size[0] - 1'],
+                    entry_hints=['0 <= iw + dw', 'iw + dw <= size[2] - 1',
+                                 'size[0] * (iw + dw) >= 0', 'size[0] * (iw + dw) <= size[0] * (size[2] - 1)',
+                                 'iu + du + (size[0] * (iw + dw)) <= size[0] * size[2] - 1',
+                                 'iu + du + (size[0] * (iw + dw)) >= 0',
+                                 'size[1] * (iu + du + (size[0] * (iw + dw))) <= size[1] * (size[0] * size[2] - 1)',
+                                 'size[1] * (iu + du + (size[0] * (iw + dw))) >= 0',
+                                 'iv + dv + (size[1] * (iu + du + (size[0] * (iw + dw)))) >= 0',
+                                 'iv + dv + (size[1] * (iu + du + (size[0] * (iw + dw)))) <= len(ctrlpts) - 1'],
                     hints=['0 <= iw + head_dw', 'iw + head_dw <= size[2] - 1',
                            'size[0] * (iw + head_dw) >= 0', 'size[0] * (iw + head_dw) <= size[0] * (size[2] - 1)',
                            'iu + du + (size[0] * (iw + head_dw)) <= size[0] * size[2] - 1',
@@ -240,6 +248,8 @@ CONTRACTS['evaluators.VolumeEvaluator.evaluate#active_hull'] = dict(
                        DISTR(vU5, 'basis[1][j]', 'head_dv'), DISTR(vL5, 'basis[1][j]', 'head_dv')]),
         6: dict(inv=['len(temp) == dimension', '0 <= iv + dv', 'iv + dv <= size[1] - 1', '0 <= iu + du', 'iu + du <= size[0] - 1',
                      'temp[d0] <= %s * sum(basis[2][k], 0, dw)' % vU6, 'temp[d0] >= %s * sum(basis[2][k], 0, dw)' % vL6],
+                # the index chain once more at the start of the body, where the subscript itself is checked
+                entry_hints=[h.replace('head_dw', 'dw') for h in vbase['loops'][6]['hints'][:10]],
                 hints=vbase['loops'][6]['hints'][:12] + [
                        '%s <= cu[iu + du] + cv[iv + dv] + cw[iw + head_dw]' % vP, '%s >= lu[iu + du] + lv[iv + dv] + lw[iw + head_dw]' % vP,
                        'cw[iw + head_dw] <= cw[spans[2][k]]', 'lw[iw + head_dw] >= lw[iw]',
